@@ -194,6 +194,80 @@ def multi_reaction(c, item):
     c.nontrivial(('multi', tuple(order), tuple(perm)))
 
 
+WPOOL = ['A', 'B', 'C', 'D', 'E', 'F']
+WIDE_STATES = [[1, 2, 3, 1, 2, 1], [0, 5, 1, 3, 0, 2], [60, 51, 120, 75, 200, 50], [1000, 3, 2, 1, 1, 70], [4, 4, 4, 4, 4, 4], [2, 1, 0, 1, 2, 3]]
+WIDE_REAL = [[0.5, 2.5, 1.25, 3.0, 0.75, 1.5], [60.5, 0.01, 1e3, 7.0, 2.0, 1e-3]]
+
+
+def wide_menu():
+    ID = lambda s_: ('id', s_)
+    return [dict(reactants=list('ABCDE'), products=['F'], kind='massaction', k=0.3),
+            dict(reactants=list('FEDCBA'), products=[], kind='massaction', k=1e-3),
+            dict(reactants=list('AABBC'), products=['D'], kind='massaction', k=0.02),
+            dict(reactants=list('DDDDD'), products=['E'], kind='massaction', k=0.5),
+            dict(reactants=list('EFEFE'), products=['A'], kind='massaction', k=0.1),
+            dict(reactants=list('ABABAB'), products=['C'], kind='massaction', k=2.0),
+            dict(reactants=['F'], products=['E'], kind='massaction', k=1.7),
+            dict(reactants=['E', 'F'], products=['D'], kind='massaction', k=0.9),
+            dict(reactants=['D', 'D'], products=['F'], kind='massaction', k=0.4),
+            dict(reactants=[], products=['F'], kind='hillpositive', k=1.5, K=40.0, n=2.0, s1='E'),
+            dict(reactants=[], products=['D'], kind='hillnegative', k=2.5, K=2.0, n=3.0, s1='F'),
+            dict(reactants=['E'], products=['E', 'A'], kind='proportionalhillpositive', k=0.7, K=30.0, n=1.5, s1='F', d='E'),
+            dict(reactants=['F'], products=['F', 'B'], kind='proportionalhillnegative', k=0.6, K=3.0, n=2.0, s1='D', d='F'),
+            dict(reactants=['C'], products=['F'], kind='general', rate=('*', ('num', 0.25), ('*', ID('C'), ID('F')))),
+            dict(reactants=[], products=['A'], kind='massaction', k=3.0)]
+
+
+def wide(c, item):
+    """beyond the small pool: 6 species, reactant lists of length 5-6, 8-15 reactions per model, counts up to 1000 and
+    non-integer concentrations; every entry of the plain and safe interface loops against its closed form"""
+    from bioscrape.types import Model
+    from bioscrape.simulator import ModelCSimInterface, SafeModelCSimInterface
+    from ..ref import crn
+    from ..modelspec import reaction_tuple
+    order, idx = item
+    menu = wide_menu()
+    rxs = [menu[i] for i in idx]
+    m = Model(species=list(order), reactions=[reaction_tuple(r) for r in rxs], initial_condition_dict={s_: 1 for s_ in WPOOL})
+    sp = dict(species=list(order), reactions=rxs, params={}, x0={})
+    SSd = crn.stoich(sp)
+    ifaces = {'plain': ModelCSimInterface(m), 'safe': SafeModelCSimInterface(m)}
+    props = m.get_propensities()
+    params = m.get_parameter_values()
+    s2i = m.get_species2index()
+    c.count('states')
+    for mode in MODES:
+        for xs in WIDE_STATES + (WIDE_REAL if mode in ('det', 'vol') else []):
+            x = dict(zip(WPOOL, [float(v) for v in xs]))
+            st = np.zeros(len(WPOOL))
+            for sname, i in s2i.items():
+                st[i] = x[sname]
+            for V in ((1.0,) if mode in ('det', 'stoch') else (0.5, 3.0)):
+                for route, iface in ifaces.items():
+                    got = list(iface.py_verif_compute_propensities(st, 0.0, V, mode))
+                    exp = crn.rates(sp, x, mode, V, 0.0, route == 'safe', None, SSd)
+                    if route == 'plain':
+                        # the bare propensity objects as a third route
+                        bare = []
+                        for pr in props:
+                            bare.append(pr.py_get_propensity(st, params, 0.0) if mode == 'det' else
+                                        pr.py_get_volume_propensity(st, params, V, 0.0) if mode == 'vol' else
+                                        pr.py_verif_get_stochastic_propensity(st, params, 0.0) if mode == 'stoch' else
+                                        pr.py_verif_get_stochastic_volume_propensity(st, params, V, 0.0))
+                        routes = (('plain', got), ('bare', bare))
+                    else:
+                        routes = (('safe', got),)
+                    for rname, vals in routes:
+                        c.count('evaluations', len(rxs)); c.count('transitions', len(rxs))
+                        for j in range(len(rxs)):
+                            if not rel_close(float(vals[j]), float(exp[j]), RTOL, 1e-300):
+                                c.violation('C01/wide/%s/%s/%s' % (rxs[j]['kind'], mode, rname), 'reaction %d of %d (%s, reactants %s) has rate %r at %s V=%s, closed form %r' % (
+                                    j, len(rxs), rxs[j]['kind'], rxs[j]['reactants'], float(vals[j]), x, V, float(exp[j])),
+                                    dict(spec=dict(kind='wide', order=list(order), idx=list(idx)), x=x, mode=mode, route=rname))
+                                return
+    c.nontrivial(('wide', tuple(order), tuple(idx)))
+
+
 def shared_dict(c, item):
     """two (three) mass-action reactions declared with ONE parameter dictionary object p = {'k': ...}: each keeps its own reactants"""
     from bioscrape.types import Model
@@ -241,12 +315,21 @@ def run(ctx):
     if ctx.quick:
         perms = perms[::4]
     pmap(multi_reaction, [(o, p_) for o in ORDERS for p_ in perms], ctx, nshards=64)
+    n_menu = len(wide_menu())
+    worders = [list(WPOOL), list(reversed(WPOOL)), ['D', 'A', 'F', 'B', 'E', 'C']]
+    witems = []
+    for o in worders:
+        for size in ((8, 15) if ctx.quick else range(5, 16)):
+            for rot in range(0, n_menu, 3 if ctx.quick else 1):
+                witems.append((o, [(rot + i) % n_menu for i in range(size)]))
+                witems.append((o, [(rot - i) % n_menu for i in range(size)]))
+    pmap(wide, witems, ctx, nshards=64)
     sp = specs(ctx.tier)
     al = alphabets(ctx.tier)
-    ctx.bounds = dict(alphabets=al, models=len(sp), reactant_sequences='all orderings of length 0..%d over A,B,C' % al['maxlen'])
+    ctx.bounds = dict(alphabets=al, models=len(sp), wide_models=len(witems), reactant_sequences='all orderings of length 0..%d over A,B,C' % al['maxlen'])
     ctx.rule = ('E2: every reactant sequence of length 0..4 over {A,B,C} (x numeric k / named k / explicit species string) '
                 'and every Hill family x s1 x d x numeric/named, in 2 species declaration orders; each crossed with the full '
-                'state/parameter/volume alphabets in 4 modes x 3 routes (bare propensity, plain interface, safe interface); plus ordered selections of 4 (thorough: all 6) reactions from a 6-reaction menu in one model, every entry of the plain and safe interface loops at every state of {0..3}^3; and ordered pairs / triples of mass-action reactions declared with one shared parameter dictionary object. '
+                'state/parameter/volume alphabets in 4 modes x 3 routes (bare propensity, plain interface, safe interface); plus ordered selections of 4 (thorough: all 6) reactions from a 6-reaction menu in one model, every entry of the plain and safe interface loops at every state of {0..3}^3; and ordered pairs / triples of mass-action reactions declared with one shared parameter dictionary object; and a wide family (6 species in 3 declaration orders, rotations of a 15-reaction menu with reactant lists of length 5-6, all Hill families and a general rate, 5..15 reactions per model, counts up to 1000 and non-integer concentrations, V in {0.5, 3}) through bare propensities and both interface loops. '
                 'states = models built; transitions = rate evaluations on the implementation. A case (kind, multiset/hill '
                 'configuration, parameter form, declaration order, mode) is non-trivial when at least one of its points has a '
                 'non-zero closed form that, for repeated reactants, differs from the multiplicity-free form.')
@@ -258,6 +341,8 @@ def run(ctx):
 def replay(ctx, case):
     if case['spec'].get('kind') == 'shared':
         return shared_dict(ctx, (case['spec']['how'], [(a, b) for a, b in case['spec']['lists']]))
+    if case['spec'].get('kind') == 'wide':
+        return wide(ctx, (case['spec']['order'], case['spec']['idx']))
     if case['spec'].get('kind') == 'multi':
         return multi_reaction(ctx, (case['spec']['order'], case['spec']['perm']))
     al = alphabets('thorough')
